@@ -1,8 +1,8 @@
 #!/bin/sh
 # usage: tools/run_all.sh quick|thorough [props...]  — runs the claimed checks one after the other, prints one line each
 TIER=${1:-quick}; shift
-PROPS=${*:-$(cat /verif/registry/_ready.txt)}
-cd /verif
+PROPS=${*:-$(cat "$(dirname "$0")/../registry/_ready.txt")}
+cd "$(dirname "$0")/.."
 for p in $PROPS; do
   s=$(date +%s)
   out=$(./check $p --tier $TIER 2>&1); rc=$?
